@@ -44,8 +44,8 @@ REG.method_family["NamedModule"] = "NamedModule@data"
 REG.ctors["AbsoluteImport"] = lambda reg, eng, st, args, kwargs, node: [(st, V(("data", "Imp"), IMP["ctor"](vals.coerce(args[0], ("str",)).x, vals.coerce(args[1], ("str",)).x, vals.coerce(args[1], ("str",)).x)))]
 REG.add(Contract("RelativeImport", module=M_IT, status="assumed", params=dict(importer="Str", module_name="Opt[Str]", import_name="Opt[Str]", level="Int"), returns="Imp",
                  raises=[("ImportException", "is_none(module_name) and is_none(import_name)")],
-                 defn="mk_imp(importer, rel_importee(importer, unwrap(module_name) if not is_none(module_name) else unwrap(import_name), level), unwrap(module_name) if not is_none(module_name) else unwrap(import_name))",
-                 note="RelativeImport.__init__: importee = <level-th ancestor package of the importer> + '.' + name (rel_importee); resolution bounded by the C02 stand-in"))
+                 defn="mk_imp(importer, rel_importee(importer, unwrap(module_name) if not is_none(module_name) else unwrap(import_name), level), rel_importee(importer, unwrap(module_name) if not is_none(module_name) else unwrap(import_name), level))",
+                 note="RelativeImport.__init__: importee = <level-th ancestor package of the importer> + '.' + name (rel_importee; proved on RelativeImport._calculate_importee in c_graphbuild.py); the stored parent modules are the dotted ancestors of that RESOLVED importee (fix 9e15481)"))
 REG.exc_bases["ImportException"] = ["Exception"]
 
 vals.declare_obj("ImportConverter", dict())
@@ -64,8 +64,9 @@ REG.macro("imp_conv_member", ["node", "name", "prefix", "internal", "i"],
           "((not is_ast_import(node)) and is_ast_importfrom(node) and ast_level(node) != 0 and exists(Opaque[Alias], lambda a: (a in ast_names(node)) and i == rel_record(node, name, a, internal)))")
 REG.macro("rel_sub", ["node", "name", "a"], "rel_importee(name, unwrap(ast_module(node)) + '.' + alias_name(a), ast_level(node))")
 REG.macro("rel_record", ["node", "name", "a", "internal"],
-          "mk_imp(name, rel_sub(node, name, a), unwrap(ast_module(node)) + '.' + alias_name(a)) if ((not is_none(ast_module(node))) and (rel_sub(node, name, a) in internal)) "
-          "else mk_imp(name, rel_importee(name, unwrap(ast_module(node)) if not is_none(ast_module(node)) else alias_name(a), ast_level(node)), unwrap(ast_module(node)) if not is_none(ast_module(node)) else alias_name(a))")
+          # (third component: the name whose dotted ancestors are the stored 'importee parent modules' -- since fix 9e15481 the RESOLVED importee, not the text as written)
+          "mk_imp(name, rel_sub(node, name, a), rel_sub(node, name, a)) if ((not is_none(ast_module(node))) and (rel_sub(node, name, a) in internal)) "
+          "else mk_imp(name, rel_importee(name, unwrap(ast_module(node)) if not is_none(ast_module(node)) else alias_name(a), ast_level(node)), rel_importee(name, unwrap(ast_module(node)) if not is_none(ast_module(node)) else alias_name(a), ast_level(node)))")
 REG.add(Contract(f"{IC}._convert", module=M_CV, kind="method", view="string",
                  params=dict(self=IC, module="Opaque[Ast]", module_name="Str", absolute_import_prefix="Str", all_internal_modules="Set[Str]"), returns="Opt[Bag[Imp]]",
                  requires=["implies(is_ast_importfrom(module) and ast_level(module) == 0, not is_none(ast_module(module)))"],
